@@ -1353,6 +1353,13 @@ func makeTaskForMesosResources(
 			}
 			// TODO: this can be optimized by excluding the base range outside the loop
 			availPorts = availPorts.Remove(mesos.Value_Range{Begin: 0, End: 8999})
+			if len(availPorts) == 0 { // Ranges.Min panics on empty ranges
+				log.WithPrefix("scheduler").
+					WithField("partition", envId.String()).
+					WithField("offerId", offer.ID.Value).
+					Warn("no port >= 9000 left in offer for an inbound channel, cannot make task")
+				return nil, nil
+			}
 			port := availPorts.Min()
 			builder := resources.Build().
 				Name(resources.Name("ports")).
@@ -1416,6 +1423,13 @@ func makeTaskForMesosResources(
 	// The control port range starts at 47101
 	// FIXME: make the control ports cutoff configurable
 	availPorts = availPorts.Remove(mesos.Value_Range{Begin: 0, End: 29999})
+	if len(availPorts) == 0 { // Ranges.Min panics on empty ranges
+		log.WithPrefix("scheduler").
+			WithField("partition", envId.String()).
+			WithField("offerId", offer.ID.Value).
+			Warn("no port >= 30000 left in offer for the control port, cannot make task")
+		return nil, nil
+	}
 	controlPort := availPorts.Min()
 	builder := resources.Build().
 		Name(resources.Name("ports")).
